@@ -1,16 +1,16 @@
 (** Proofs/TrEquiv01.v — sequences_lib._is_power_of_2 (`x and not x & (x - 1)`) re-translated from its
     source on every run (Gen/Tr.v) equals the hand-written model Model/Quantize.is_pow2 for all integers. *)
 From Coq Require Import ZArith Bool Lia.
-From NS Require Import Gen.Tr Model.Quantize.
+From NS Require Import Base.TrTac Gen.Tr Model.Quantize.
 Local Open Scope Z_scope.
 
 Lemma tr_is_power_of_2_eq x : tr_is_power_of_2 x = Some (is_pow2 x).
 Proof.
-  unfold tr_is_power_of_2, is_pow2. f_equal. rewrite negb_involutive.
-  destruct (Z.ltb_spec 0 x) as [Hp|Hn].
-  - replace (x =? 0) with false by (symmetry; apply Z.eqb_neq; lia). reflexivity.
-  - destruct (Z.eqb_spec x 0) as [->|Hx]; [reflexivity|]. cbn [negb andb].
-    (* x < 0: x & (x-1) is negative, hence non-zero *)
-    assert (Hl : Z.land x (x - 1) < 0) by (apply Z.land_neg; lia).
-    apply Z.eqb_neq. lia.
+  (* the only fact about [land] that is needed: for x < 0, x & (x-1) is negative, hence non-zero; after that the
+     bit-and is an opaque integer and the rest is propositional + linear (robust against re-phrasings of the
+     Python expression such as `x != 0 and (x & (x - 1)) == 0`) *)
+  unfold tr_is_power_of_2, is_pow2.
+  rewrite ?(Z.land_comm (x - 1) x).
+  assert (Hl : x < 0 -> Z.land x (x - 1) < 0) by (intros; apply Z.land_neg; lia).
+  generalize dependent (Z.land x (x - 1)). intros l Hl. tr_solve.
 Qed.
